@@ -259,7 +259,7 @@ func run(c *lib.Ctx) error {
 	sort.SliceStable(items, func(a, b int) bool { // candidates first
 		return strings.HasPrefix(items[a].what, "candidate") && !strings.HasPrefix(items[b].what, "candidate")
 	})
-	if err := judgeAll(c, dir, items, c.Pick(2, 60)); err != nil {
+	if err := judgeAll(c, dir, items, c.Pick(2, 12)); err != nil {
 		return err
 	}
 	c.Set("runs_recorded", len(items))
@@ -285,7 +285,7 @@ func judgeAll(c *lib.Ctx, dir string, items []item, capKnown int) error {
 		its = append(its, drv.Item{What: it.what, Module: it.rc.Module, Events: it.rc.Events, Case: it.rc, Known: known})
 	}
 	c.Set("runs_showing_the_known_pattern", npat)
-	skipped, err := drv.JudgeAll(c, dir, nil, its, capKnown, 4000, 6, "", func(it drv.Item, v *lib.TraceVerdict) {
+	skipped, err := drv.JudgeAll(c, dir, nil, its, capKnown, 4000, 4, "", func(it drv.Item, v *lib.TraceVerdict) {
 		reject(c, it.What, it.Case.(replayCase), v)
 	})
 	c.Set("runs_not_judged_after_the_known_pattern_was_rejected_cap_times", skipped)
